@@ -251,6 +251,35 @@ def verdict(r, runner, mutated, res, casedoc, mkind):
 
 # ------------------------------------------------------------------ mutation generators
 
+def multipart_mutations(envelope):
+    root = [b'Content-Type: text/xml; charset=utf-8', b'Content-ID: <root>']
+    att = [b'Content-Type: application/octet-stream', b'Content-ID: <att1>', b'Content-Transfer-Encoding: base64', b'Content-Location: att1.bin']
+
+    def build(root_h, att_h, parts=('root', 'att'), payload=b'QUJD', close=True):
+        out = b''
+        for p_ in parts:
+            hs, bd = (root_h, envelope) if p_ == 'root' else (att_h, payload)
+            out += b'--VFB\r\n' + b''.join(x + b'\r\n' for x in hs) + b'\r\n' + bd + b'\r\n'
+        return out + (b'--VFB--\r\n' if close else b'')
+    valid = build(root, att[:3])
+    yield 'valid', valid
+    for i in range(len(valid)):
+        yield 'truncate#%d' % i, valid[:i]
+    for which, hs in (('root', root), ('att', att)):
+        for i in range(len(hs)):
+            rest = hs[:i] + hs[i + 1:]
+            yield 'drop-header#%s:%d' % (which, i), build(rest if which == 'root' else root, rest if which == 'att' else att[:3])
+            emptied = hs[:i] + [hs[i].split(b':')[0] + b':'] + hs[i + 1:]
+            yield 'empty-header#%s:%d' % (which, i), build(emptied if which == 'root' else root, emptied if which == 'att' else att[:3])
+    yield 'location-only', build(root, [att[0], att[3]])
+    yield 'no-headers', build(root, [])
+    yield 'binary-payload', build(root, att[:2], payload=b'\x00\xff\xfe raw')
+    yield 'not-base64', build(root, att[:3], payload=b'!!!!')
+    for parts in (('att',), ('root',), ('att', 'root'), ('root', 'att', 'att'), ('root', 'root'), ()):
+        yield 'parts#' + '+'.join(parts), build(root, att[:3], parts=parts)
+    yield 'unclosed', build(root, att[:3], close=False)
+
+
 def truncations(data):
     for n in range(len(data)):
         yield 'truncate', 'len=%d' % n, data[:n]
@@ -533,6 +562,21 @@ def run_shard(shard, only=None):
                     res['violations'][-1]['what'] = 'Content-Type %r: %s' % (ct, res['violations'][-1]['what'])
                 res['evaluations'] += 1
                 res['cov']['content_types'] = res['cov'].get('content_types', 0) + 1
+                res['nontrivial'] += 1
+                res['outcomes'][oc] = res['outcomes'].get(oc, 0) + 1
+        # SOAP with attachments: a multipart/related body (root envelope + one attachment) - every truncation, every part
+        # header line deleted / emptied, parts dropped or doubled
+        if fam == 'xml' and cfg['proto'] in ('soap11', 'soap12'):
+            rn = Runner(fam, h, 'wsgi')
+            valid = xsdcodec.build_request(h.codec, h.b.methods['m'], [5, 7], cfg['proto'])
+            for label, body in multipart_mutations(valid):
+                key = ['wsgi', 'multipart', label]
+                if only is not None and only != key:
+                    continue
+                r = rn.run(body, content_type='multipart/related; boundary=VFB; start="<root>"; type="text/xml"')
+                oc = verdict(r, rn, body, res, {'shard': shard, 'only': key}, 'multipart:' + label.split('#')[0])
+                res['evaluations'] += 1
+                res['cov']['multipart'] = res['cov'].get('multipart', 0) + 1
                 res['nontrivial'] += 1
                 res['outcomes'][oc] = res['outcomes'].get(oc, 0) + 1
         from vf.props.c01 import compress
